@@ -1045,7 +1045,8 @@ theorem mergePythonVersion_res (hvc : VCErrDocumented) (hP : VCOpsTotal P) {d : 
           if M.beq mm (.leaf (.single nm)) then Pure.pure (some (.leaf (.single vm)))
           else
             match mm with
-            | .leaf (.single ms) => do
+            | .leaf (.single ms) =>
+              if ms.op == "in" || ms.op == "not in" then Pure.pure (some mm) else do
               let str := leafText ms.name ms.op ms.value ms.swapped
               let precision := countChar '.' str + 1
               let lt_ge := ms.op == "<" || ms.op == ">="
@@ -1069,7 +1070,8 @@ theorem mergePythonVersion_res (hvc : VCErrDocumented) (hP : VCOpsTotal P) {d : 
       dsimp only
       refine Res.ite (fun _ => Res.pure (by intro r hr; cases hr; simpa using hvm)) (fun _ => ?_)
       split
-      · exact Res.bind (parseItemMarker_res hvc hP _) (fun r hr => Res.pure (by intro r' hr'; cases hr'; exact hr))
+      · refine Res.ite (fun _ => Res.pure (by intro r hr; cases hr; exact hmm)) (fun _ => ?_)
+        exact Res.bind (parseItemMarker_res hvc hP _) (fun r hr => Res.pure (by intro r' hr'; cases hr'; exact hr))
       · exact Res.pure (by intro r hr; cases hr; exact hmm)
   rw [mergePythonVersion.eq_def]
   simp only
